@@ -10,6 +10,8 @@ import (
 
 	"github.com/ajitpratap0/GoSQLX/pkg/gosqlx"
 	"github.com/ajitpratap0/GoSQLX/pkg/sql/ast"
+	"github.com/ajitpratap0/GoSQLX/pkg/sql/keywords"
+	"github.com/ajitpratap0/GoSQLX/pkg/sql/parser"
 )
 
 func init() { props["C15"] = runC15 }
@@ -710,6 +712,49 @@ func runC15(c *runCtx) {
 		}
 		corr(sql, tree, o)
 		ast.ReleaseAST(tree)
+	}
+	// the names extracted are the names that were written when the text was parsed — also when the text was handed over
+	// as a byte slice that the caller goes on to use (reads the next statement into it, clears it): the tree and what is
+	// extracted from it do not follow the buffer
+	{
+		g2 := &c15gen{r: c.rng.Fork()}
+		entries := []struct {
+			name string
+			f    func(b []byte) (*ast.AST, error)
+		}{
+			{"gosqlx.ParseBytes", func(b []byte) (*ast.AST, error) { return gosqlx.ParseBytes(b) }},
+			{"parser.ParseBytes", func(b []byte) (*ast.AST, error) { return parser.ParseBytes(b) }},
+			{"parser.ParseBytesWithDialect", func(b []byte) (*ast.AST, error) { return parser.ParseBytesWithDialect(b, keywords.DialectPostgreSQL) }},
+			{"parser.ParseBytesWithTokens", func(b []byte) (*ast.AST, error) { t, _, err := parser.ParseBytesWithTokens(b); return t, err }},
+		}
+		for i := 0; i < c.n(120, 3000); i++ {
+			sql, _ := g2.Statement()
+			other, _ := g2.Statement()
+			for _, e := range entries {
+				buf := []byte(sql)
+				tree, err := e.f(buf)
+				if err != nil {
+					continue
+				}
+				res.count("buffer|"+e.name+"|"+sql, true)
+				before := c15Extract(tree).canon() + "|" + dumpNode(tree)
+				// the caller reuses its buffer: the next statement, then blanks
+				n := copy(buf, other)
+				for k := n; k < len(buf); k++ {
+					buf[k] = ' '
+				}
+				mid := c15Extract(tree).canon() + "|" + dumpNode(tree)
+				for k := range buf {
+					buf[k] = 'z'
+				}
+				after := c15Extract(tree).canon() + "|" + dumpNode(tree)
+				if mid != before || after != before {
+					res.fail("tree-follows-input-buffer:"+e.name, "after the caller reused the byte slice it had parsed, the tree (and what is extracted from it) shows the new contents of the buffer",
+						map[string]any{"parsed": sql, "buffer_then_held": truncate(other, 200)}, map[string]any{"before": truncate(before, 300), "after_reuse": truncate(mid, 300)})
+				}
+				ast.ReleaseAST(tree)
+			}
+		}
 	}
 }
 
